@@ -152,6 +152,37 @@ func flatten(r *sim.R, n *model.Node, depth int) map[string]interface{} {
 			r.Probe("order: list spelled as dotted index keys")
 			continue
 		}
+		if c.K == model.KSub && len(c.A) > 0 && len(c.D) == 0 && depth < 3 && r.T.Chance(1, 4, "spell-list-numeric-map") {
+			// a list written as a map with numeric keys; an element that is a dictionary may be
+			// spelled partly under its plain index ("0": {...}) and partly dotted ("0.x": v)
+			sub := map[string]interface{}{}
+			for i, e := range c.A {
+				key := strconv.Itoa(i)
+				if e.K == model.KSub && len(e.D) >= 2 && len(e.A) == 0 && r.T.Bool("split-element") {
+					nested := model.Dict()
+					dotted := model.Dict()
+					for j, kk := range e.Keys() {
+						if j%2 == 0 {
+							nested.D[kk] = e.D[kk]
+						} else {
+							dotted.D[kk] = e.D[kk]
+						}
+					}
+					sub[key] = flatten(r, nested, depth+1)
+					for kk, v := range flatten(r, dotted, depth+1) {
+						sub[key+"."+kk] = v
+					}
+					r.Probe("order: list element spelled under its plain index and a dotted index")
+				} else if e.K == model.KSub && len(e.D) > 0 && len(e.A) == 0 {
+					sub[key] = flatten(r, e, depth+1)
+				} else {
+					sub[key] = world.Render(e, world.RepGeneric, nil)
+				}
+			}
+			m[k] = sub
+			r.Probe("order: list spelled as a map with numeric keys")
+			continue
+		}
 		if c.K == model.KSub && len(c.D) > 0 && len(c.A) == 0 {
 			m[k] = flatten(r, c, depth+1)
 		} else {
